@@ -92,8 +92,11 @@ class Ctx:
                 # not the documented namedtuple-over-BytesIO shape any more: leave the library's own stream in place
                 self.streams[prefix + nm] = _Foreign(st)
 
-    def fresh_dw(self, tag):
-        d = self.elf.get_dwarf_info(follow_links=self.follow)
+    def fresh_dw(self, tag, relocate=None, follow=None):
+        kw = {}
+        if relocate is not None:
+            kw['relocate_dwarf_sections'] = relocate
+        d = self.elf.get_dwarf_info(follow_links=self.follow if follow is None else follow, **kw)
         self._swap(d, tag)
         sup = getattr(d, 'supplementary_dwarfinfo', None)
         if sup is not None:
